@@ -331,7 +331,11 @@ class SCCReader(BaseReader):
         for idx, word in enumerate(word_list):
             word = word.strip()
             if len(word) == 4:
-                next_command = word_list[idx + 1] if idx + 1 < len(word_list) else None
+                next_idx = idx + 1
+                # the redundant copy of a doubled command is not what follows it
+                if next_idx < len(word_list) and word_list[next_idx].strip() == word:
+                    next_idx += 1
+                next_command = word_list[next_idx] if next_idx < len(word_list) else None
                 self._translate_word(word=word, next_command=next_command)
 
     def _translate_word(self, word, next_command=None):
